@@ -238,8 +238,11 @@ pub fn check_tree(info: &LangInfo, text: &[u8], tree: &Tree, full_limit: usize) 
             let mut want = String::new();
             sexp(&xt, lang, text, i, &mut want);
             // the character shown in (UNEXPECTED c) is not part of the tree's structure: mask it on both sides
-            let got = mask_unexpected(&n.to_sexp());
+            let mut got = mask_unexpected(&n.to_sexp());
             let want = mask_unexpected(&want);
+            // to_sexp deliberately also shows MISSING tokens that are hidden (no node of the tree stands for them):
+            // where hook H2 reports such tokens below this node, their entries are taken out before comparing
+            if x.hidden_missing > 0 { got = strip_hidden_missing(&got); }
             if got != want { c.fail("to_sexp", format!("#{}.to_sexp() = {} but the explicit tree renders as {}", i, got, want)); }
         }
     }
@@ -249,6 +252,20 @@ pub fn check_tree(info: &LangInfo, text: &[u8], tree: &Tree, full_limit: usize) 
 
 /// Nodes the documentation allows as "smallest node within #root spanning [s,e]": the deepest relevant node m with
 /// m.start <= s < m.end && e <= m.end (such nodes form a chain), or a zero-width relevant node at s == e below it.
+/// removes every " (MISSING _name)" / "(MISSING _name)" entry whose kind starts with an underscore (a hidden token)
+fn strip_hidden_missing(s: &str) -> String {
+    let mut out = String::new();
+    let mut rest = s;
+    while let Some(p) = rest.find("(MISSING _") {
+        let end = rest[p..].find(')').map(|e| p + e + 1).unwrap_or(rest.len());
+        let before = &rest[..p];
+        out.push_str(before.strip_suffix(' ').unwrap_or(before));
+        rest = &rest[end..];
+    }
+    out.push_str(rest);
+    out
+}
+
 fn expected_descendants(xt: &XTree, root: usize, s: usize, e: usize, named_only: bool) -> Vec<usize> {
     let mut m = root;
     let mut cur = root;
